@@ -117,7 +117,7 @@ func build(tier string) *enum {
 			e.hist = append(e.hist, []int{a, b})
 		}
 	}
-	if tier == "thorough" {
+	if tier == "thorough" || tier == "quick" {
 		for a := range ops {
 			for b := range ops {
 				for c := range ops {
@@ -286,9 +286,9 @@ func pre(tier string, r *vf.Rec) {
 func Spec() *vf.Check {
 	return &vf.Check{
 		ID: "C14", Level: "model_checking", BlockSize: 64, Sub: sub, Pre: pre,
-		Rule: "explicit enumeration of run histories: for each of 82 probes (41 models x 2 configurations, T=5) every history of 0..2 (thorough: 0..3) earlier runs over a 10-operation alphabet {same object same config, same object other config (ApplyParameters again), fresh object of the same model, a model of each of the 7 packages} followed by the probe; oracle = the probe run first, in a fresh process, on a fresh object (each baseline computed in two separate processes). " +
+		Rule: "explicit enumeration of run histories: for each of 82 probes (41 models x 2 configurations, T=5) every history of 0..3 earlier runs over a 10-operation alphabet {same object same config, same object other config (ApplyParameters again), fresh object of the same model, a model of each of the 7 packages} followed by the probe; oracle = the probe run first, in a fresh process, on a fresh object (each baseline computed in two separate processes). " +
 			"Causality for every probe: from the model-initialised and from a warmed-up state, for the probe word's prefixes and for every constant-letter prefix, every truncation point t in 1..4 and every replacement of the inputs after t by a constant tail of every letter. distinct_nontrivial = histories whose probe matched the baseline.",
-		Assumptions: []string{"history depth 2 (thorough 3) before the probe; one probe word per configuration", "package-level state that only a third kind of earlier run could set is not reached"},
+		Assumptions: []string{"history depth 3 before the probe; one probe word per configuration", "package-level state that only a third kind of earlier run could set is not reached"},
 		Build:       func(tier string) vf.Enumeration { return build(tier) },
 		Finish: func(tier string, m *vf.Merged, cov map[string]interface{}) {
 			e := build(tier)
